@@ -1292,10 +1292,13 @@ func (p *constructPlan) Execute(ctx context.Context) (*table.Table, error) {
 	}
 	// The buffered channel has capacity to accommodate twice the amount of triples stored in a single call.
 	tripChan := make(chan *triple.Triple, 2*p.bulkSize)
-	done := make(chan bool)
+	done := make(chan error)
 
 	go func() {
-		var ts []*triple.Triple
+		var (
+			ts   []*triple.Triple
+			errs []string
+		)
 		updateFunc := func(g storage.Graph, d []*triple.Triple) error {
 			gID := g.ID(ctx)
 			nTrpls := len(d)
@@ -1318,30 +1321,50 @@ func (p *constructPlan) Execute(ctx context.Context) (*table.Table, error) {
 				return g.AddTriples(ctx, d)
 			}
 		}
+		flush := func() {
+			if err := update(ctx, ts, p.stm.OutputGraphNames(), p.store, updateFunc); err != nil {
+				errs = append(errs, err.Error())
+			}
+			ts = []*triple.Triple{}
+		}
 		for elem := range tripChan {
 			ts = append(ts, elem)
 			if len(ts) >= p.bulkSize {
-				update(ctx, ts, p.stm.OutputGraphNames(), p.store, updateFunc)
-				ts = []*triple.Triple{}
+				flush()
 			}
 		}
 		if len(ts) > 0 {
-			update(ctx, ts, p.stm.OutputGraphNames(), p.store, updateFunc)
+			flush()
 		}
-		done <- true
+		if len(errs) > 0 {
+			done <- errors.New(strings.Join(errs, "; "))
+			return
+		}
+		done <- nil
 	}()
+	// finish lets the writer store what it was given and end, whatever the outcome.
+	finish := func(err error) (*table.Table, error) {
+		close(tripChan)
+		if werr := <-done; err == nil {
+			err = werr
+		}
+		if err != nil {
+			return nil, err
+		}
+		return tbl, nil
+	}
 
 	for _, cc := range p.stm.ConstructClauses() {
 		for _, r := range tbl.Rows() {
 			t, err := p.processConstructClause(cc, tbl, r)
 			if err != nil {
-				return nil, err
+				return finish(err)
 			}
 			if len(cc.PredicateObjectPairs()) > 1 {
 				// We need to reify a blank node.
 				rts, bn, err := t.Reify()
 				if err != nil {
-					return nil, fmt.Errorf("triple.Reify failed to reify %v with error %v", t, err)
+					return finish(fmt.Errorf("triple.Reify failed to reify %v with error %v", t, err))
 				}
 				for _, trpl := range rts[1:] {
 					tripChan <- trpl
@@ -1349,11 +1372,11 @@ func (p *constructPlan) Execute(ctx context.Context) (*table.Table, error) {
 				for _, pop := range cc.PredicateObjectPairs()[1:] {
 					rprd, robj, err := p.processPredicateObjectPair(pop, tbl, r)
 					if err != nil {
-						return nil, err
+						return finish(err)
 					}
 					rt, err := triple.New(bn, rprd, robj)
 					if err != nil {
-						return nil, err
+						return finish(err)
 					}
 					tripChan <- rt
 				}
@@ -1362,10 +1385,8 @@ func (p *constructPlan) Execute(ctx context.Context) (*table.Table, error) {
 			}
 		}
 	}
-	close(tripChan)
 	// Wait until all triples are added to the store.
-	<-done
-	return tbl, nil
+	return finish(nil)
 }
 
 // String returns a readable description of the execution plan.
